@@ -22,6 +22,10 @@ pub enum Tier {
 pub struct Ctx {
     pub counters: BTreeMap<String, u64>,
     pub sigs: Vec<u64>,
+    /// signatures of model states reached (history scenarios)
+    pub states: Vec<u64>,
+    /// signatures of the schedule policies under which streams were driven
+    pub scheds: Vec<u64>,
     pub evals: u64,
     pub digest: u64,
     pub trace: Option<Vec<String>>,
@@ -53,6 +57,9 @@ impl Ctx {
     /// Folds a disk's statistics into the counters and its operation digest into the run digest.
     pub fn absorb(&mut self, d: &SimDisk) {
         let s: DiskStats = d.stats();
+        if self.scheds.len() < 64 {
+            self.scheds.push(d.policy_sig());
+        }
         self.bump("sim_stream_ops", s.ops);
         self.bump("sim_bytes_read", s.bytes_read);
         self.bump("sim_bytes_written", s.bytes_written);
